@@ -33,6 +33,7 @@ type T struct {
 	wr     *os.File
 	outc   chan string
 	threads []func()
+	tmpfiles []string
 }
 
 type assumeFailed struct{}
@@ -235,6 +236,20 @@ func (t *T) Observe(key string, vals ...interface{}) {
 	t.Log = append(t.Log, s)
 }
 
+// File makes content available as a file and returns its path (natively a
+// real temporary file; under the engine a registered name that the
+// ReadFile stub knows).
+func (t *T) File(label, content string) string {
+	f, err := os.CreateTemp("", "zzfile-*-"+label)
+	if err != nil {
+		panic(err)
+	}
+	f.WriteString(content)
+	f.Close()
+	t.tmpfiles = append(t.tmpfiles, f.Name())
+	return f.Name()
+}
+
 // StdoutStart redirects os.Stdout into a pipe until StdoutEnd.
 func (t *T) StdoutStart() {
 	r, w, err := os.Pipe()
@@ -349,6 +364,9 @@ func runOne(c Case) (o Outcome) {
 	defer func() {
 		if t.saved != nil {
 			t.StdoutEnd()
+		}
+		for _, f := range t.tmpfiles {
+			os.Remove(f)
 		}
 		o.Obs, o.Fails = t.Log, t.Fails
 		if r := recover(); r != nil {
